@@ -29,7 +29,7 @@ import (
 	"verif/internal/vrt"
 )
 
-var suite = vrt.NewSuite("C08", "(2-8 goroutines, a generated sequence of 2-12 calls for each, a struct type new to the process): every goroutine works on private copies of pooled documents and values but shares the parsed jp.Expr values (child, index, slice, union, wildcard, descent, filters with comparison, regex and nested paths), the *ojg.Options records, the freshly synthesised struct type (so that its field plans are built while others use it), the named catalogue types and one recomposer on which all target types were registered before the goroutines start. Calls: oj.Parse / ParseString / Validate / Tokenize / Unmarshal, sen.Parse, oj.JSON / Marshal / Write, sen.String / Bytes, pretty.JSON / SEN, alt.Decompose / Generify / Alter / Dup / Recompose, Expr.Get / First / Has / Set / Del / Modify, jp.ParseString. Oracles: the Go race detector (the check is built with -race and a report becomes a violation of the running case); every call returns exactly what the same call returned when the sequences were run one after the other beforehand; every returned []byte still holds what it held when it was returned once all goroutines are done. Each case is run three times. Non-trivial = at least two goroutines that both use a shared object of the same class (pooled writer, pooled parser, struct plan, expression, recomposer); distinct = distinct case")
+var suite = vrt.NewSuite("C08", "(2-8 goroutines, a generated sequence of 2-12 calls for each, a struct type new to the process): every goroutine works on private copies of pooled documents and values but shares the parsed jp.Expr values (child, index, slice, union, wildcard, descent, filters with comparison, regex and nested paths), the *ojg.Options records, the freshly synthesised struct type (so that its field plans are built while others use it), the named catalogue types and one recomposer on which all target types were registered before the goroutines start. Calls: oj.Parse / ParseString / Validate / Tokenize / Unmarshal, sen.Parse, the Must forms, oj.Load / MustLoad / sen.ParseReader / MustParseReader through a reader that gives the processor away before every short read, multi-document parses whose callback does the same, oj.JSON / Marshal / Write, sen.String / Bytes, pretty.JSON / SEN, alt.Decompose / Generify / Alter / Dup / Recompose, Expr.Get / First / Has / Set / Del / Modify, jp.ParseString. Oracles: the Go race detector (the check is built with -race and a report becomes a violation of the running case); every call returns exactly what the same call returned when the sequences were run one after the other beforehand; every returned []byte still holds what it held when it was returned once all goroutines are done. Each case is run three times. Non-trivial = at least two goroutines that both use a shared object of the same class (pooled writer, pooled parser, struct plan, expression, recomposer); distinct = distinct case")
 
 type Op struct {
 	K string `json:"k"`
